@@ -294,10 +294,6 @@ func runLayout(inp *input, scratch string) core.Result {
 	}
 
 	// the walk: what the callback in newPkg reacts to, in ast.Inspect order (go/ast data)
-	type qpos struct {
-		name string
-		pos  token.Pos
-	}
 	var events []string
 	var queries []qpos
 	type declAt struct {
@@ -450,6 +446,11 @@ func runLayout(inp *input, scratch string) core.Result {
 		return "(Some " + core.Hex(*t) + ")"
 	}
 	var qterms []string
+	var handed []handedOut
+	queryTerm := func(on obsName) string {
+		return fmt.Sprintf("mk_query %d %d %s %s %s %s %s", on.File, on.Line, optText(on.ExpDoc), optText(on.ExpCmt),
+			coqTagMap(on.Tags), coqLines(on.Doc), coqLines(on.Comment))
+	}
 	stats := map[string]bool{}
 	for _, q := range queries {
 		ps := pkg.Position(q.pos)
@@ -492,10 +493,47 @@ func runLayout(inp *input, scratch string) core.Result {
 		if (on.ExpDoc != nil && strings.TrimSpace(*on.ExpDoc) == "") || (on.ExpCmt != nil && strings.TrimSpace(*on.ExpCmt) == "") {
 			stats["empty_comment_text"] = true
 		}
+		// what the calls handed out stays with the harness (it is edited further down, as a caller may do);
+		// the observation is a copy of its own
+		handed = append(handed, handedOut{idx: len(obs.Names), q: q, tags: on.Tags, doc: on.Doc, cmt: on.Comment})
+		on.Tags, on.Doc, on.Comment = cloneTags(on.Tags), cloneLines(on.Doc), cloneLines(on.Comment)
 		obs.Names = append(obs.Names, on)
-		qterms = append(qterms, fmt.Sprintf("mk_query %d %d %s %s %s %s %s", fi, ps.Line, optText(on.ExpDoc), optText(on.ExpCmt),
-			coqTagMap(on.Tags), coqLines(on.Doc), coqLines(on.Comment)))
+		qterms = append(qterms, queryTerm(on))
 	}
+	// "Doc returns exactly the lines ..." is a statement about EVERY call: ask again after a caller has edited
+	// what it was handed (round 1: the first line loses the declared name, in place - what gengo's own Context.Doc
+	// does with the lines of Package.Doc; round 2: every line and every tag value overwritten, values appended,
+	// keys added and removed).  An answer that differs from the first one is one more observed query of the
+	// case and is judged by the same predicate as the first.
+	for round := 1; round <= 2; round++ {
+		for i := range handed {
+			h := &handed[i]
+			scribble(round, h.q.name, h.tags, h.doc, h.cmt)
+		}
+		for i := range handed {
+			h := &handed[i]
+			first := obs.Names[h.idx]
+			again := first
+			again.Name = fmt.Sprintf("%s (call %d)", first.Name, round+1)
+			again.Tags, again.Doc, again.Comment = nil, nil, nil
+			var t map[string][]string
+			var d, c []string
+			p1, v1 := core.Recover(func() { t, d = pkg.Doc(h.q.pos) })
+			p2, v2 := core.Recover(func() { c = pkg.Comment(h.q.pos) })
+			if p1 || p2 {
+				res.GoViolations = append(res.GoViolations, fmt.Sprint("Doc/Comment panicked on a repeated call: ", v1, v2))
+				continue
+			}
+			again.Tags, again.Doc, again.Comment = cloneTags(t), cloneLines(d), cloneLines(c)
+			h.tags, h.doc, h.cmt = t, d, c
+			if queryTerm(again) != queryTerm(first) {
+				stats["repeated_call_differs"] = true
+				obs.Names = append(obs.Names, again)
+				qterms = append(qterms, queryTerm(again))
+			}
+		}
+	}
+	stats["repeated_calls"] = len(handed) > 0
 	res.Observed = obs
 	var leadTerms []string
 	for _, g := range leads {
@@ -520,6 +558,77 @@ func runLayout(inp *input, scratch string) core.Result {
 	}
 	sort.Strings(res.Tags)
 	return res
+}
+
+type qpos struct {
+	name string
+	pos  token.Pos
+}
+
+// handedOut: the very values one Doc / Comment call returned (not copies)
+type handedOut struct {
+	idx  int // index of the first observation in obs.Names
+	q    qpos
+	tags map[string][]string
+	doc  []string
+	cmt  []string
+}
+
+func cloneLines(ls []string) []string {
+	if ls == nil {
+		return nil
+	}
+	return append([]string{}, ls...)
+}
+
+func cloneTags(m map[string][]string) map[string][]string {
+	if m == nil {
+		return nil
+	}
+	out := make(map[string][]string, len(m))
+	for k, vs := range m {
+		out[k] = cloneLines(vs)
+	}
+	return out
+}
+
+// scribble edits, in place, what a Doc / Comment call handed out - a caller owns its results.
+func scribble(round int, name string, tags map[string][]string, doc, cmt []string) {
+	if round == 1 {
+		// gengo's Context.Doc: strip the declared name from the first line, in place
+		if len(doc) > 0 {
+			if rest, ok := strings.CutPrefix(doc[0], name); ok && (rest == "" || rest[0] == ' ') {
+				doc[0] = strings.TrimSpace(rest)
+			} else {
+				doc[0] = strings.ToUpper(doc[0])
+			}
+		}
+		if len(cmt) > 0 {
+			cmt[len(cmt)-1] = strings.TrimSpace(cmt[len(cmt)-1] + " ")
+			cmt[0] = strings.TrimPrefix(cmt[0], name)
+		}
+		for k, vs := range tags { // a caller merging tags: append to the value lists
+			tags[k] = append(vs, "merged")
+		}
+		return
+	}
+	for _, ls := range [][]string{doc, cmt} {
+		full := ls[:cap(ls)]
+		for i := range full {
+			full[i] = "\x00scribbled over by the caller"
+		}
+		sort.Strings(ls)
+	}
+	for k, vs := range tags {
+		full := vs[:cap(vs)]
+		for i := range full {
+			full[i] = "scribbled"
+		}
+		delete(tags, k)
+	}
+	if tags != nil {
+		tags["added-by-caller"] = []string{"1"}
+	}
 }
 
 func coqItems(items []string) string {
